@@ -313,7 +313,8 @@ func normalizeRound(repo string, overlay map[string][]byte, env []string, tags s
 		out[k] = v
 	}
 	changed := false
-	uniq := 0
+	// ids are unique over all rounds of one run: a later round inlines into text that
+	// already holds labels and temporaries of earlier rounds
 	perFile := map[string][]splice{}
 	for _, f := range p.Syntax {
 		src, path := srcOf(f)
@@ -381,8 +382,8 @@ func normalizeRound(repo string, overlay map[string][]byte, env []string, tags s
 			}
 			h := helpers[site.callee]
 			hsrc, _ := srcOf(h.file)
-			uniq++
-			txt, ok := buildInline(fset, p.Types, info, src, off, s, site, h, hsrc, uniq)
+			normUniq++
+			txt, ok := buildInline(fset, p.Types, info, src, off, s, site, h, hsrc, normUniq)
 			if !ok {
 				return false
 			}
@@ -690,6 +691,8 @@ func fieldNames(fl *ast.FieldList) []string {
 }
 
 // buildInline produces the splices that replace statement s.
+var normUniq int
+
 func buildInline(fset *token.FileSet, pkg *types.Package, info *types.Info, src []byte, off func(token.Pos) int, s ast.Stmt, site *callSite, h *helperInfo, hsrc []byte, id int) ([]splice, bool) {
 	sig := h.sig
 	callFile := fset.Position(s.Pos()).Filename
